@@ -595,7 +595,12 @@ func (dsc *dataStoreCommand) bitfieldWrite(keyName string, ops []*bitfieldOp) (o
 			// detect underflow and overflow
 			var outOfBounds bool
 			if op.signed {
-				outOfBounds = isSignedSumOverflow(n, op.value, bits)
+				if op.op == BF_SET {
+					// SET stores the value itself: only the value has to fit
+					outOfBounds = isSignedSumOverflow(0, op.value, bits)
+				} else {
+					outOfBounds = isSignedSumOverflow(n, op.value, bits)
+				}
 			} else {
 				// unsigned underflows when it goes negative
 				outOfBounds = newValue < 0 || isUnsignedOverflow(newValue, bits)
